@@ -567,6 +567,10 @@ type World struct {
 	HookGate func(h HookCall)
 	// FailHookAt >= 0 makes the general hook call FailSync at that call index.
 	FailHookAt int
+	// CancelHookAt >= 0 makes the hook cancel the caller's context (CancelCaller)
+	// at that call index and then carry on normally: a cancellation that arrives
+	// while no request is in flight.
+	CancelHookAt int
 	// CancelCaller cancels the context of the sync call in flight.
 	CancelCaller func()
 	// NoNextCid makes the hook not call SetNextSyncCid.
@@ -575,7 +579,7 @@ type World struct {
 
 // NewWorld creates the network and installs it as http.DefaultTransport.
 func NewWorld() *World {
-	w := &World{Net: memnet.New(), Dst: NewStore(), FailHookAt: -1}
+	w := &World{Net: memnet.New(), Dst: NewStore(), FailHookAt: -1, CancelHookAt: -1}
 	w.restore = w.Net.InstallDefault()
 	return w
 }
@@ -603,11 +607,18 @@ func (w *World) Hook(tag string) dagsync.BlockHookFunc {
 		h := HookCall{p, c, tag}
 		w.Hooks = append(w.Hooks, h)
 		fail := w.FailHookAt == idx
+		cancelCaller := w.CancelCaller
+		if w.CancelHookAt != idx {
+			cancelCaller = nil
+		}
 		gate := w.HookGate
 		noNext := w.NoNextCid
 		w.mu.Unlock()
 		if gate != nil {
 			gate(h)
+		}
+		if cancelCaller != nil {
+			cancelCaller()
 		}
 		if fail {
 			act.FailSync(errors.New("hook failure injected"))
@@ -655,6 +666,14 @@ func (w *World) Close() {
 	if w.Sub != nil {
 		w.Sub.Close()
 	}
+	for _, p := range w.Pubs {
+		p.stop()
+	}
+	w.restore()
+}
+
+// CloseRest shuts down everything but the subscriber (publishers, network).
+func (w *World) CloseRest() {
 	for _, p := range w.Pubs {
 		p.stop()
 	}
